@@ -2,6 +2,7 @@ package main
 
 import (
 	"go/token"
+	"math/bits"
 	"go/types"
 
 	"golang.org/x/tools/go/ssa"
@@ -275,5 +276,29 @@ func addEnvIntrinsics(m map[string]intrinsic) {
 			return []Value{c[6]}
 		}
 		return p.execFunction(fn, a, nil)
+	}
+	// math/bits 128-bit helpers (the library bodies are long-division routines): exact wide-word semantics
+	m["math/bits.Mul64"] = func(p *Path, fn *ssa.Function, a []Value, pos token.Pos, caller *ssa.Function) []Value {
+		c := p.ctx
+		x, y := p.intOf(a[0]).T, p.intOf(a[1]).T
+		if x.IsConst() && y.IsConst() {
+			hi, lo := bits.Mul64(x.Val, y.Val)
+			return []Value{IntV{T: c.BV(64, hi)}, IntV{T: c.BV(64, lo)}}
+		}
+		prod := c.Mul(c.ZExt(x, 64), c.ZExt(y, 64))
+		return []Value{IntV{T: c.Extract(prod, 127, 64)}, IntV{T: c.Extract(prod, 63, 0)}}
+	}
+	m["math/bits.Div64"] = func(p *Path, fn *ssa.Function, a []Value, pos token.Pos, caller *ssa.Function) []Value {
+		c := p.ctx
+		hi, lo, y := p.intOf(a[0]).T, p.intOf(a[1]).T, p.intOf(a[2]).T
+		p.implicit(c.Not(c.Eq(y, c.BV(64, 0))), "divide-by-zero", pos, caller)
+		p.implicit(c.ULT(hi, y), "bits.Div64-quotient-overflow", pos, caller)
+		if hi.IsConst() && lo.IsConst() && y.IsConst() && y.Val != 0 && hi.Val < y.Val {
+			q, r := bits.Div64(hi.Val, lo.Val, y.Val)
+			return []Value{IntV{T: c.BV(64, q)}, IntV{T: c.BV(64, r)}}
+		}
+		n := c.Concat(hi, lo)
+		d := c.ZExt(y, 64)
+		return []Value{IntV{T: c.Extract(c.UDiv(n, d), 63, 0)}, IntV{T: c.Extract(c.URem(n, d), 63, 0)}}
 	}
 }
